@@ -20,6 +20,9 @@ def parseAtt (s : String) : Option Att :=
   if s == "ok" then some .ok
   else match s.toList with
     | 'f' :: r => (String.ofList r).toNat?.map .fail
+    -- `x<n>`: shutdown is requested while the call is in flight; the call fails like any other failed call, and the
+    -- retry loop (not context-aware) goes on against a sink that fails every later call too
+    | 'x' :: r => (String.ofList r).toNat?.map .fail
     | _ => none
 
 def parseRec (s : String) : Option Rec :=
